@@ -55,3 +55,16 @@ Theorem C08_statement_and_ddl_entry_points_agree : forall ts,
   || is_kwlike (cur ts) "GRANT" || is_kwlike (cur ts) "REVOKE" || is_kwlike (cur ts) "ALTER" = true -> sp_stmt ts = sp_ddl ts.
 Proof. exact family_entry_points_agree. Qed.
 Print Assumptions C08_statement_and_ddl_entry_points_agree.
+
+(* ---- the documented statement forms are accepted, on the fixed-word statements of the family: for every row of the DROP table (thirteen
+   statements) and of the CREATE table (SCHEMA, DATABASE, ROLE) the sentence "head word, the words of the row, IF EXISTS where the row allows
+   it, a name where the row takes one" is accepted by the model of parseDDL -- whatever the positions and the name -- and yields the node of
+   the row with exactly the documented fields ---- *)
+From Verif Require Import Parse.StmtAccept.
+Theorem C08_drop_statements_accepted : forall p0, Forall (row_accepted (kwtok (KwLike "DROP") p0)) drop_rows.
+Proof. exact drop_statements_accepted. Qed.
+Print Assumptions C08_drop_statements_accepted.
+
+Theorem C08_create_statements_accepted : forall p0, Forall (row_accepted (kwtok (Kind "CREATE") p0)) create_rows.
+Proof. exact create_statements_accepted. Qed.
+Print Assumptions C08_create_statements_accepted.
